@@ -162,6 +162,8 @@ def _forcing_sites(ctx: Ctx, r: RuleResult) -> int:
             return sc
         if isinstance(fa, ast.Name) and fa.id in u.params + u.kwonly + u.free_flags():
             return ('flag', fa.id)
+        if isinstance(fa, ast.Attribute) and isinstance(fa.value, ast.Name) and fa.value.id == 'self' and u.is_method:
+            return ('flag', 'self.' + fa.attr)   # a flag stored on the (validator) object
         return sc
     changed = True
     rounds = 0
@@ -186,15 +188,41 @@ def _forcing_sites(ctx: Ctx, r: RuleResult) -> int:
                             if u.writes.get(a.id) != new:
                                 u.writes[a.id] = new
                                 changed = True
-    # factories: a closure that narrows its own argument under a flag of the enclosing function
-    factories: Dict[str, Tuple[_Unit, str]] = {}
+    # factories: a closure that narrows its own argument under a flag of the enclosing function; a class whose
+    # instances are callable validators narrowing under a flag stored on the instance; functions that return such
+    factories: Dict[str, Tuple[List[str], str]] = {}   # name -> (parameter names in call order, flag parameter | '')
     for u in units:
         if u.outer is not None and u.writes:
             for pname, cond in u.writes.items():
                 if isinstance(cond, tuple) and cond[1] in u.free_flags():
-                    factories[u.outer.name] = (u.outer, cond[1])
+                    factories[u.outer.name] = (u.outer.params + u.outer.kwonly, cond[1])
                 elif cond == 'always':
-                    factories[u.outer.name] = (u.outer, '')
+                    factories[u.outer.name] = (u.outer.params + u.outer.kwonly, '')
+        if u.outer is None and u.name == '__call__' and u.fi.cls is not None and u.writes:
+            flds = [f.name for f in u.fi.cls.fields() if f.init]
+            for pname, cond in u.writes.items():
+                if isinstance(cond, tuple) and cond[1].startswith('self.') and cond[1][5:] in flds:
+                    factories[u.fi.cls.name] = (flds, cond[1][5:])
+                elif cond == 'always':
+                    factories[u.fi.cls.name] = (flds, '')
+    grew = True
+    while grew:
+        grew = False
+        for u in units:
+            if u.outer is not None or u.name in factories or u.fi.cls is not None:
+                continue
+            for n in u.own_nodes():
+                if isinstance(n, ast.Return) and isinstance(n.value, ast.Call) and isinstance(n.value.func, ast.Name) and n.value.func.id in factories:
+                    fparams, fflag = factories[n.value.func.id]
+                    kw = {k.arg: k.value for k in n.value.keywords if k.arg}
+                    pos = dict(zip(fparams, n.value.args))
+                    fa = kw.get(fflag, pos.get(fflag)) if fflag else ast.Constant(True)
+                    if isinstance(fa, ast.Name) and fa.id in u.params + u.kwonly:
+                        factories[u.name] = (u.params + u.kwonly, fa.id)
+                        grew = True
+                    elif isinstance(fa, ast.Constant) and fa.value:
+                        factories[u.name] = (u.params + u.kwonly, '')
+                        grew = True
     n_force = 0
 
     def is_validator(u: _Unit) -> bool:
@@ -231,6 +259,8 @@ def _forcing_sites(ctx: Ctx, r: RuleResult) -> int:
                             r.fail(f'{where_u}:force', f'forces the child to {ty}, which is not a fixed parameter type (another node\'s type would narrow caller-owned nodes)', where)
                         else:
                             r.ok(f'{where_u}: forces its own argument to a fixed parameter type')
+                    elif u.name == '__call__' and u.fi.cls is not None and u.fi.cls.name in factories and isinstance(a, ast.Name) and a.id in u.value_params():
+                        r.ok(f'{where_u}: validator object narrows its own argument ({eff})')
                     elif isinstance(a, ast.Name) and a.id in u.value_params():
                         if u.name.startswith('_') and not (u.name.startswith('__') and u.name.endswith('__')):
                             r.ok(f'{where_u}: passes its own parameter on to {g.name} (private helper, condition {eff})')
@@ -242,11 +272,16 @@ def _forcing_sites(ctx: Ctx, r: RuleResult) -> int:
     for mod in ctx.model.modules.values():
         for node in ast.walk(mod.tree):
             if isinstance(node, ast.Call) and isinstance(node.func, ast.Name) and node.func.id in factories:
-                fac, flag = factories[node.func.id]
+                fparams, flag = factories[node.func.id]
                 kw = {k.arg: k.value for k in node.keywords if k.arg}
-                pos = dict(zip(fac.params, node.args))
+                pos = dict(zip(fparams, node.args))
                 fa = kw.get(flag, pos.get(flag)) if flag else ast.Constant(True)
                 if fa is None or (isinstance(fa, ast.Constant) and not fa.value):
+                    continue
+                encl = _enclosing(ctx, mod, node)
+                if encl is not None and encl.name in factories and isinstance(fa, ast.Name):
+                    n_force += 1
+                    r.ok(f'{encl.qualname}: passes its {fa.id} parameter on to {node.func.id} (validator factory)')
                     continue
                 n_force += 1
                 fi = _enclosing(ctx, mod, node)
